@@ -18,6 +18,10 @@ def run(tier):
     for (k, n, m) in kinds:
         jobs.append(lambda k=k, n=n, m=m: machine_run(k, n, m, "AllOps", depth=14, mode="sim", mant=53, nr=3, props=False,
                                                       simulate=60 if tier == "quick" else 1500, tag="_sim", workers=1))
+    # ... and of the nested types (the calculator instantiated over an inner dual level)
+    for (k, n, m, inner) in NESTED_THOROUGH:
+        jobs.append(lambda k=k, n=n, m=m, inner=inner: machine_run(k, n, m, "AllOps", depth=14, mode="sim", mant=53, nr=3, props=False, inner=inner,
+                                                                   simulate=60 if tier == "quick" else 1500, tag="_sim", workers=1))
     res = parallel(jobs, max_par=6)
     tw, tb = res[0], res[1]
     chk.add_tlc(tw, "towers (closed forms = derivation on generators)")
